@@ -303,6 +303,14 @@ fn guarded<R>(f: impl FnOnce() -> R) -> std::thread::Result<R> {
     r
 }
 
+/// catch_unwind for harness code that calls into the specification (accessors): quiet, and not counted as library allocation.
+fn guarded_unaccounted<R>(f: impl FnOnce() -> R) -> std::thread::Result<R> {
+    QUIET.with(|q| q.set(true));
+    let r = catch_unwind(AssertUnwindSafe(f));
+    QUIET.with(|q| q.set(false));
+    r
+}
+
 fn panic_msg(p: Box<dyn std::any::Any + Send>) -> String {
     if let Some(s) = p.downcast_ref::<&str>() {
         s.to_string()
@@ -418,12 +426,18 @@ pub fn run_reader_t<T: Spec>(s: &ReaderSetup) -> RTrace {
     let mut step_cap_hit = false;
 
     let do_next = |it: &mut TagIterator<SimReader, T>| -> Ev {
+        // (the conversion of the emitted tag runs under the same guard: it calls the specification's accessors, and a
+        // specification whose accessors disagree with its own type table is reported like a panic of the call)
         match guarded((|| {
             let r = it.next();
             let off = it.last_emitted_tag_offset();
             (r, off)
         })) {
-            Ok((Some(Ok(t)), off)) => Ev::Tag(to_tagv::<T>(&t), off),
+            // (outside the allocator's accounting window: the copy made here is the harness's, not the library's)
+            Ok((Some(Ok(t)), off)) => match guarded_unaccounted(|| to_tagv::<T>(&t)) {
+                Ok(tv) => Ev::Tag(tv, off),
+                Err(p) => Ev::Panic(panic_msg(p)),
+            },
             Ok((Some(Err(e)), _)) => Ev::Err(conv_err(&e)),
             Ok((None, _)) => Ev::None,
             Err(p) => Ev::Panic(panic_msg(p)),
